@@ -2,6 +2,7 @@
 #include "EbDefinitions.h"
 #include "EbSequenceControlSet.h"
 #include "EbPictureControlSet.h"
+#include "EbUtility.h"
 #include "c26_copy.inc"
 void harness(void) {
     SequenceControlSet *scs = (SequenceControlSet *)malloc(sizeof *scs); PictureControlSet *pcs = (PictureControlSet *)malloc(sizeof *pcs);
